@@ -258,14 +258,21 @@ func c11Wait(c *Ctx, a *clientAnchors) {
 		if ret, ok := b.Instrs[len(b.Instrs)-1].(*ssa.Return); ok && len(ret.Results) == 1 {
 			return sx.Of(ret.Results[0]).String(), b
 		}
+		// the case leaves the wait loop through a join that returns what the case set (results carried by φs)
+		if v, ret := resultVia(b, -1); v != nil && ret != nil {
+			return sx.Of(v).String(), b
+		}
 		return "no-return", b
 	}
 	endsInReturn := func(b *ssa.BasicBlock) bool {
 		if b == nil {
 			return false
 		}
-		_, ok := b.Instrs[len(b.Instrs)-1].(*ssa.Return)
-		return ok
+		if _, ok := b.Instrs[len(b.Instrs)-1].(*ssa.Return); ok {
+			return true
+		}
+		_, ret := resultVia(b, -1)
+		return ret != nil
 	}
 	if w.iDone >= 0 {
 		s, b := retOfBlock(selectCaseBlock(sel, w.iDone))
@@ -860,6 +867,9 @@ func checkC12(c *Ctx) {
 		c12Retry(c, a)
 		c12Transmit(c, a)
 		c12Map(c, a)
+		// "fails with the no-response error at T×(2^n−1)": a try ends when ITS timeout has passed — the wait select has a
+		// deadline case fed by the try's timeout, created once per try and never re-armed (C11-K1/K2)
+		c11Wait(c, a)
 		if a.sendCall != nil && len(a.sendCall.Call.Args) == 3 {
 			sx := c.Sx()
 			got1, got2 := sx.Of(a.sendCall.Call.Args[1]).String(), sx.Of(a.sendCall.Call.Args[2]).String()
@@ -1579,8 +1589,8 @@ func c12IdentityConsistent(c *Ctx, a *clientAnchors, byIdentity bool) {
 	dl := "load(global(" + a.short + ".errDeadlineExceeded))"
 	ok, got := false, ""
 	if tb != nil {
-		if ret, isRet := tb.Instrs[len(tb.Instrs)-1].(*ssa.Return); isRet && len(ret.Results) >= 1 {
-			v := ret.Results[len(ret.Results)-1]
+		v, ret := resultVia(tb, -1)
+		if ret != nil && v != nil {
 			got = sx.Of(v).String()
 			if got == dl {
 				ok = true
